@@ -170,7 +170,7 @@ UNIT = {
          "proof_before": [("tracer.visit_kind(self.return_type().into(), EdgeKind::FunctionReturn);", "lemma_edges_full(self.argument_types@, f, EdgeKind::FunctionParameter);")],
          "ensures": ["final(tracer).log() == old(tracer).log() + sig_edges(self)"]},
         {"kind": "fn", "file": "bindgen/ir/comp.rs", "name": "trace", "impl": r"^impl Trace for Field$", "impl_header": "impl Field", "impl_name": "Field",
-         "subst": GEN + [("data.ty.into()", "data.ty.item()", 1, "R12"), ("bf.ty().into()", "bf.ty().item()", 1, "R12"),
+         "subst": GEN + [("data.ty.into()", "data.ty.item()", 0, "R12"), ("bf.ty().into()", "bf.ty().item()", 0, "R12"),
                          ("for bf in bitfields", "let mut it = SliceCursor::new(bitfields.as_slice()); while it.has_next()", 1, "R13")],
          "ghost_start": "let ghost log0 = tracer.log(); let ghost f = |b: Bitfield| bfty(b);",
          "loops": {0: {"body_start": "let bf = it.next_item();", "decreases": "it.all().len() - it.pos()",
